@@ -252,13 +252,16 @@ impl Report {
             self.caps
         );
 
-        if !self.machinery_errors.is_empty() {
-            for m in &self.machinery_errors {
-                eprintln!("MACHINERY ERROR: {m}");
-            }
-            return 2;
+        for m in &self.machinery_errors {
+            eprintln!("MACHINERY ERROR: {m}");
         }
-        if unknown.is_empty() { 0 } else { 1 }
+        // a violation was observed on a real execution and has its replay
+        // file: it is reported as such even if some other part of the run
+        // failed for a reason of the machinery's own
+        if !unknown.is_empty() {
+            return 1;
+        }
+        if !self.machinery_errors.is_empty() { 2 } else { 0 }
     }
 }
 
